@@ -18,7 +18,8 @@ static size_t SZ_INT, SZ_EXT;
 static char cfgdesc[256];
 
 /* model */
-struct mbuf { int live; int internal; int ext; size_t nm, sz; int refs; const void *data; };
+struct mbuf { int live; int internal; int ext; size_t nm, sz; int refs; const void *data; int blk; };      /* blk: the allocation that holds the elements of an internal buffer */
+static int gone_blk[16], ngone;      /* storage blocks of buffers whose last reference went away in the current operation */
 static struct mbuf B[MAXBUF]; static int nB;
 static struct { int buf; size_t off, len; } O[NOBJ];
 
@@ -79,6 +80,7 @@ static const char *w_config_desc(void) { return cfgdesc; }
 
 static void w_init(void)
 {
+    ngone = 0;
     int a;
     shim_reset();
     memset(EXT, 0xEE, sizeof EXT);
@@ -124,7 +126,7 @@ static int w_enabled(mc_op_t o)
 static void m_drop(int a)
 {
     int b = O[a].buf;
-    if (b >= 0) { if (--B[b].refs == 0) { B[b].live = 0; MC_COUNT(K_LAST_REF_DROP); } }
+    if (b >= 0) { if (--B[b].refs == 0) { B[b].live = 0; MC_COUNT(K_LAST_REF_DROP); if (B[b].internal && B[b].blk >= 0 && ngone < 16) gone_blk[ngone++] = B[b].blk; } }
     O[a].buf = -1; O[a].off = O[a].len = 0;
 }
 static int m_newbuf(int internal, int ext, size_t nm, size_t sz)
@@ -133,7 +135,7 @@ static int m_newbuf(int internal, int ext, size_t nm, size_t sz)
     /* compact: reuse dead slots so that buffer numbering stays bounded */
     for (b = 0; b < nB; b++) if (!B[b].live) break;
     if (b == nB) nB++;
-    B[b].live = 1; B[b].internal = internal; B[b].ext = ext; B[b].nm = nm; B[b].sz = sz; B[b].refs = 0; B[b].data = NULL;
+    B[b].live = 1; B[b].internal = internal; B[b].ext = ext; B[b].nm = nm; B[b].sz = sz; B[b].refs = 0; B[b].data = NULL; B[b].blk = -1;
     (void)i;
     return b;
 }
@@ -143,12 +145,17 @@ static void check_accounting(const char *when)
     /* every live buffer descriptor is one bookkeeping block + one managed block; nothing else may be alive */
     /* the statement fixes WHEN the underlying allocation goes away, not how many blocks implement it: between one and two live blocks per
      * referenced buffer (today: bookkeeping block + descriptor/payload block), none when nothing is referenced */
-    MC_CHECK(PC14, shim_nlive() >= live_bufs() && (live_bufs() > 0 || shim_nlive() == 0), "%s: %d allocations alive for %d buffer(s) still referenced (at least one per buffer, none once every reference is gone; how many blocks a buffer uses is the library's business)", when, shim_nlive(), live_bufs());
+    int g;
+    MC_CHECK(PC14, shim_nlive() >= live_bufs(), "%s: %d allocations alive for %d buffer(s) still referenced (at least one per buffer; how many blocks a buffer uses is the library's business)", when, shim_nlive(), live_bufs());
+    /* "released exactly once afterwards": the allocation that held the elements of a buffer must be gone as soon as no array object refers to the buffer
+     * (the allocation layer reports a second release).  Bookkeeping the library keeps for itself - a cached control block, say - is not the buffer. */
+    for (g = 0; g < ngone; g++) MC_CHECK(PC14, !shim_blks[gone_blk[g]].live, "%s: the storage of a buffer that no array object refers to any more is still allocated (%zu bytes)", when, shim_blks[gone_blk[g]].sz);
     MC_CHECK(PC14, shim_errors == 0, "%s: a pointer was passed to free() that is not a live allocation of the library (double or foreign free)", when);
 }
 
 static void w_apply(mc_op_t o)
 {
+    ngone = 0;
     int a = OA(o), ab = 0, code = OC(o);
     switch (code) {
     case O_ALLOC: {
@@ -159,7 +166,8 @@ static void w_apply(mc_op_t o)
         if (!ok) MC_COUNT(K_ALLOC_UNREP);
         SHIM_CALL(ab, cstl_array_alloc(&A[a], nm, SZ_INT));
         m_drop(a);
-        if (ok) { int b = m_newbuf(1, -1, nm, SZ_INT); B[b].refs = 1; O[a].buf = b; O[a].off = 0; O[a].len = nm; }
+        if (ok) { int b = m_newbuf(1, -1, nm, SZ_INT); B[b].refs = 1; O[a].buf = b; O[a].off = 0; O[a].len = nm;
+                  if (!ab) { const char *d = cstl_array_data(&A[a]); shim_blk *sb = d ? shim_find(d) : NULL; if (d && !sb) sb = shim_find(d - 1); B[b].blk = sb ? (int)(sb - shim_blks) : -1; } }
         if (!ab && !ok) MC_CHECK(PC14, cstl_array_size(&A[a]) == 0 && cstl_array_data(&A[a]) == NULL, "alloc(%s elements) cannot be provided and must leave the object empty, but size is %zu / data %p", nmname[OB(o)], cstl_array_size(&A[a]), cstl_array_data(&A[a]));
         break;
     }
